@@ -167,9 +167,10 @@ template <size_t N, class C, class V, bool BMI> static void morton_h()
 }
 
 // C14: calculate_index == bit interleave with coordinate 0 least significant, all coordinates < 2^floor(64/N)
-template <size_t N, class C, bool BMI> static void morton_curve_h()
+template <size_t N, class C, bool BMI, class I = size_t> static void morton_curve_h()
 {
-    using B = backend::morton<vector::vector_d<C, N>, backend::array<vector::float1>, BMI>;
+    // I: index type of the array backend beneath (the curve position is computed in it)
+    using B = backend::morton<vector::vector_d<C, N>, backend::array<vector::float1, I>, BMI>;
     constexpr unsigned W = 64 / N;
     constexpr unsigned WC = W < sizeof(C) * 8 - (std::is_signed_v<C> ? 1 : 0) ? W : sizeof(C) * 8 - (std::is_signed_v<C> ? 1 : 0);
     size_t c[N];
@@ -179,14 +180,14 @@ template <size_t N, class C, bool BMI> static void morton_curve_h()
         if (WC < 64) vf_assume(c[k] < (size_t(1) << WC));
         cc[k] = static_cast<C>(c[k]);
     }
-    size_t idx = B::calculate_index(cc);
+    size_t idx = static_cast<size_t>(B::calculate_index(cc));
     size_t ref = 0;
     for (unsigned b = 0; b < W; b++)
         for (size_t k = 0; k < N; k++) ref |= ((c[k] >> b) & size_t(1)) << (b * N + k);
     vf_assert(idx == ref, 1);
     // both implementations agree
-    using B2 = backend::morton<vector::vector_d<C, N>, backend::array<vector::float1>, !BMI>;
-    vf_assert(B2::calculate_index(cc) == idx, 2);
+    using B2 = backend::morton<vector::vector_d<C, N>, backend::array<vector::float1, I>, !BMI>;
+    vf_assert(static_cast<size_t>(B2::calculate_index(cc)) == idx, 2);
     vf_observe_u64(idx);
 }
 
